@@ -167,10 +167,13 @@ func (fd *File) lazyInit() *FileL2 {
 }
 
 func (fd *File) lazyInitOnce() {
+	verifFileInit(0, fd)
 	fd.mu.Lock()
 	if fd.L2 == nil {
+		verifFileInit(1, fd)
 		fd.lazyRawInit() // recursively initializes all L2 structures
 	}
+	verifFileInit(2, fd)
 	atomic.StoreUint32(&fd.once, 1)
 	fd.mu.Unlock()
 }
